@@ -114,6 +114,10 @@ def cases_C15(rng, tier):
         for sp, pt in zip(seps, parts[1:]):
             text += sp + q + pt + q
         out.append(("concat", "find_concat", text, ("string", b"".join(parts), "concatenation")))
+    # literal CONTENT that contains a joint token (an HTML-escaped ampersand, a plus, an underscore) stays as it is; a literal that IS a bare joining operator is outside C15
+    for a_, b_, sep in ((b"a&amp;b", b"c", b" + "), (b"q=1&amp;r=2", b"&amp;s=3", b" & "), (b"x+y", b"+z", b"+"), (b"a_b", b"_", b" _\r\n & "), (b"x&amp;", b"amp;y", b" &amp; ")):
+        for q in (b'"', b"'"):
+            out.append(("concat", "find_concat", q + a_ + q + sep + q + b_ + q, ("string", a_ + b_, "concatenation")))
     for p in payloads(rng, n, 0, 12, SAFE):
         for q in (b'"', b"'"):
             out.append(("reverse", "find_reverse", b"reverse(" + q + p + q + b")", ("string", p[::-1], "reverse")))
